@@ -200,14 +200,17 @@ def firstNonOp : List Node → Option Node
   | p :: ps => if isOperator p then firstNonOp ps else some p
 
 /-- the cwd used for the parts of a list -/
-def effectiveCwd (w : World) (parts : List Node) (cwd : String) (remote : Bool) : String :=
+def effectiveCwdS (resolveCd : String → String → String) (parts : List Node) (cwd : String) (remote : Bool) : String :=
   if remote then cwd else
   match firstNonOp parts with
   | some p =>
     match extractCdTarget p with
-    | some t => if t.isEmpty then cwd else w.resolveCd t cwd
+    | some t => if t.isEmpty then cwd else resolveCd t cwd
     | none => cwd
   | none => cwd
+
+abbrev effectiveCwd (w : World) (parts : List Node) (cwd : String) (remote : Bool) : String :=
+  effectiveCwdS w.resolveCd parts cwd remote
 
 /-- decision for one file redirect once the target text is known -/
 def redirectDecision (w : World) (op target cwd : String) : List Decision :=
@@ -235,11 +238,13 @@ structure CmdCtx where
   hasHandler : Bool
   isSimpleSafe : Bool
 
-def mkCmdCtx (w : World) (ws : List Word) : CmdCtx :=
+def mkCmdCtxS (hasHandler simpleSafe : String → Bool) (ws : List Word) : CmdCtx :=
   let words := ws.map wordValue
   let baseIdx := skipAssign words
   let base := words.getD baseIdx ""
-  { words, baseIdx, base, hasHandler := w.hasHandler base, isSimpleSafe := w.simpleSafe base }
+  { words, baseIdx, base, hasHandler := hasHandler base, isSimpleSafe := simpleSafe base }
+
+abbrev mkCmdCtx (w : World) (ws : List Word) : CmdCtx := mkCmdCtxS w.hasHandler w.simpleSafe ws
 
 /-- the injection-risk prompt attached to a pure `$(…)` argument of a handler CLI -/
 def injectionRisk (w : World) (ctx : CmdCtx) (wd : Word) (position : Nat) : List Decision :=
